@@ -13,7 +13,7 @@
     Python API (same calls, CBC underneath); their program is the same one plus the "no tie" rows, which lose no
     optimum when no pair is cheaper tied than in the average of its two orders ([C05_cplex_notie_optimal]; the
     source used a threshold of 0.001 there - finding F15, repaired). *)
-From Corankco Require Import Prelude Scheme Rank KemenySpec CostTable CostTableProof OptTheory Partition PartitionProof ILP ILPProof ILPAll.
+From Corankco Require Import Prelude Scheme Rank KemenySpec CostTable CostTableProof OptTheory EquivOrder Partition PartitionProof ILP ILPProof ILPAll.
 Local Open Scope Z_scope.
 
 Theorem C05_opt_lower : forall K U c, mirror K -> NoDup U -> wfU U c -> opt K U <= score K c.
@@ -34,6 +34,13 @@ Print Assumptions C05_optimal_iff_opt.
 Theorem C05_score_is_kemeny : forall s D c, score (cost_spec s D) c = kemeny_spec s D c.
 Proof. exact score_cost_spec. Qed.
 Print Assumptions C05_score_is_kemeny.
+
+(** the optimal consensuses are the same under two schemes the library calls equivalent (multiples of one another) *)
+Theorem C05_equivalent_schemes_same_optima : forall s1 s2,
+  nonneg s1 -> nonneg s2 -> is_equivalent_to s1 s2 = true ->
+  forall D U c, is_optimal (cost_spec s1 D) U c <-> is_optimal (cost_spec s2 D) U c.
+Proof. exact equivalent_schemes_same_optima. Qed.
+Print Assumptions C05_equivalent_schemes_same_optima.
 
 (** decomposition along a partition without back arcs loses no optimum; trivial components *)
 Theorem C05_decomposition_sound : forall K U P,
